@@ -97,6 +97,7 @@ impl World {
             (0, 1, bob.to_vec(), None),
             (1, 1, bob.to_vec(), Some(2)),
             (3, 0, alex.to_vec(), None),
+            (0, 0, vec![("name", "Alexa"), ("age", "31"), ("sex", "female"), ("height", "168")], None),
         ];
         let creds: Vec<Held> = plan
             .iter()
